@@ -1,7 +1,7 @@
 import ast
 from typing import Tuple, List
 
-from rope.base import pyobjects, worder
+from rope.base import codeanalyze, pyobjects, worder
 from rope.base.builtins import Lambda
 from rope.base.codeanalyze import SourceLinesAdapter
 
@@ -230,9 +230,15 @@ class _BaseFunctionParser:
         return self.implicit_arg and "." in self.call[: self.first_parens]
 
     def _get_source_range(self, tree):
-        start = self._lines.get_line_start(tree.lineno) + tree.col_offset
-        end = self._lines.get_line_start(tree.end_lineno) + tree.end_col_offset
+        start = self._get_offset(tree.lineno, tree.col_offset)
+        end = self._get_offset(tree.end_lineno, tree.end_col_offset)
         return self._lines.code[start:end]
+
+    def _get_offset(self, lineno, col_offset):
+        # `col_offset` counts bytes, the text before it may be non-ASCII
+        return self._lines.get_line_start(lineno) + codeanalyze.column_to_offset(
+            self._lines.get_line(lineno), col_offset
+        )
 
 
 class _FunctionDefParser(_BaseFunctionParser):
